@@ -140,6 +140,9 @@ type Server struct {
 
 	// serviceSafePointLock is a lock for UpdateServiceGCSafePoint
 	serviceSafePointLock sync.Mutex
+	// gcSafePointLock is a lock for UpdateGCSafePoint: the load-compare-save of
+	// the GC safe point must not interleave with another update.
+	gcSafePointLock sync.Mutex
 
 	// Store as map[string]*grpc.ClientConn
 	clientConns sync.Map
